@@ -183,9 +183,9 @@ def space(tier):
     out = _with_not(A) + ARITH
     out += _with_not(_pairs(A_PAIR, A_PAIR))
     out += _pairs_not(A_SMALL)
-    out += _triples(A_TRI) + [f"NOT ({s})" for s in _triples(A_TRI, (0, 1))]
+    out += _triples(A_TRI, (0, 1, 3)) + [f"NOT ({s})" for s in _triples(A_TRI, (0, 1))]
     if tier == "thorough":  # a superset of quick
-        out += [f"NOT ({s})" for s in _triples(A_TRI, (2, 3))] + [f"NOT ({s})" for s in _pairs_not(A_SMALL)]
+        out += _triples(A_TRI, (2,)) + [f"NOT ({s})" for s in _triples(A_TRI, (2, 3)) + _pairs_not(A_SMALL)]
         out += _pairs(A_PAIR, A)
         out += _with_not(_triples(A_MED))
         out += _quads(A_QUAD)
@@ -369,7 +369,6 @@ def snapshot(node):
 class Recorder:
     def __init__(self):
         self.stack = []  # frames [rule, inner_failed]
-        self.last = None  # (node object, hash, copy)
         self.calls = collections.Counter()
         self.changed = collections.Counter()
         self.findings = []  # (rule, kind, connector, before_sql, after_sql, env, want, got)
@@ -708,7 +707,7 @@ def run(tier, seed):
                 "expression or at least one observed rule application changed its node",
         "bound": f"tier {tier}: {len(texts)} expressions (atoms, NOT atoms, all pairs over {len(A_PAIR)} atoms, pairs with NOT-ed operands "
                  f"over {len(A_SMALL)}, all triples over {len(A_TRI)} atoms in 4 groupings, each also under NOT (quick: NOT-operand pairs not under NOT, "
-                 "triples under NOT in the 2 parenthesised groupings only)"
+                 "triples without the unparenthesised grouping, under NOT in the 2 connector-parenthesised groupings only)"
                  + (f", thorough: pairs of the {len(A_PAIR)} with every atom, triples over {len(A_MED)} atoms, depth-3 "
                     f"over {len(A_QUAD)} atoms" if tier == "thorough" else "")
                  + "); x typed/untyped x {simplify, simplify(cp), normalize cnf/dnf} x dialects {None, mysql, redshift}"
